@@ -616,7 +616,8 @@ func (c *Client) readResponse() error {
 		return fmt.Errorf("in %v: %v", token, err)
 	}
 
-	if !c.dec.ExpectCRLF() {
+	// readResponseTagged reads the CRLF itself
+	if tag == "" && !c.dec.ExpectCRLF() {
 		return fmt.Errorf("in response: %v", c.dec.Err())
 	}
 
@@ -736,6 +737,12 @@ func (c *Client) readResponseTagged(tag, typ string) (startTLS *startTLSCommand,
 		}
 	default:
 		return nil, fmt.Errorf("in resp-cond-state: expected OK, NO or BAD status condition, but got %v", typ)
+	}
+
+	// Only complete the command once the whole line has been received: a
+	// truncated tagged response must not be reported as success
+	if !c.dec.ExpectCRLF() {
+		return nil, fmt.Errorf("in response: %v", c.dec.Err())
 	}
 
 	c.completeCommand(cmd, cmdErr)
